@@ -1,12 +1,230 @@
-import Usid.Model.Reshape
-/-! C01 — N-D form equals the coordinate map defined by the ancillary matrices.
-    (Theorems about the wrapper's views; the coordinate-map theorem itself is in progress, see
-    `coordinate_map_statement`.) -/
+import Usid.Proofs.Reshape
+/-! C01 — N-D form equals the coordinate map defined by the ancillary matrices. -/
 namespace Usid.C01
-open Usid Usid.Reshape
+open Usid Usid.Reshape Usid.Grid Usid.Dims Usid.C09
 
 variable {α : Type} [Inhabited α]
 
+/-- **The coordinate map (sorted form).**  For every pair of regular grids (any number of dimensions, any
+    sizes >= 1, any storage permutation of the change rates, at most as many dimensions as points on a
+    side) and every Main matrix over them: `reshape_to_n_dims(sort_dims=True)` succeeds; its labels and
+    sizes list the dimensions slowest first (positions, then spectroscopic) in the order found by
+    `get_sort_order`, whatever tie-break the sort uses among size-1 dimensions; and the element at the N-D
+    index made of the point's indices in that order is `main[r, c]` - for every r, c. -/
+theorem coordinate_map_sorted (main : NDArr α) (pS pR sS sR : List Nat) (posInds : List (List Nat))
+    (posLabs specLabs : List String)
+    (hP : ValidGrid pS pR) (hS : ValidGrid sS sR)
+    (hkP : pS.length ≤ npoints (sizeFn pS) pR) (hkS : sS.length ≤ npoints (sizeFn sS) sR)
+    (hpos : transposeM posInds = gridMatrix pS pR)
+    (hshape : main.shape = [npoints (sizeFn pS) pR, npoints (sizeFn sS) sR])
+    (hflat : main.flat.length = npoints (sizeFn pS) pR * npoints (sizeFn sS) sR)
+    (hlp : posLabs.length = pS.length) (hls : specLabs.length = sS.length) :
+    let ordP := getSortOrder (gridMatrix pS pR)
+    let ordS := getSortOrder (gridMatrix sS sR)
+    let nd := sortedND main pS pR sS sR
+    reshapeToNDims main posInds (gridMatrix sS sR) posLabs specLabs true =
+        .ok (nd, (pick posLabs ordP).reverse ++ (pick specLabs ordS).reverse) ∧
+      nd.shape = ordP.reverse.map (sizeFn pS) ++ ordS.reverse.map (sizeFn sS) ∧
+      ∀ r c, r < npoints (sizeFn pS) pR → c < npoints (sizeFn sS) sR →
+        nd.get (coords pS pR r ordP.reverse ++ coords sS sR c ordS.reverse) = main.get [r, c] := by
+  intro ordP ordS nd
+  have hpermP := (order_is_rate pS pR hP hkP).1
+  have hpermS := (order_is_rate sS sR hS hkS).1
+  have hdP := dims_along pS pR ordP hP hkP (hpermP.trans hP.1)
+  have hdS := dims_along sS sR ordS hS hkS (hpermS.trans hS.1)
+  have hprodP : (ordP.map (sizeFn pS)).prod = npoints (sizeFn pS) pR := (hpermP.map _).prod_nat
+  have hprodS : (ordS.map (sizeFn sS)).prod = npoints (sizeFn sS) sR := (hpermS.map _).prod_nat
+  have hshapeprod : ((ordP.map (sizeFn pS)).reverse ++ (ordS.map (sizeFn sS)).reverse).prod = main.flat.length := by
+    rw [List.prod_append, (List.reverse_perm _).prod_nat, (List.reverse_perm _).prod_nat, hprodP, hprodS, hflat]
+  have hlabP : ordP.any (fun x => decide (x ≥ posLabs.length)) = false := by
+    rw [List.any_eq_false]; intro x hx
+    have := List.mem_range.mp ((hpermP.trans hP.1).subset hx)
+    simp; omega
+  have hlabS : ordS.any (fun x => decide (x ≥ specLabs.length)) = false := by
+    rw [List.any_eq_false]; intro x hx
+    have := List.mem_range.mp ((hpermS.trans hS.1).subset hx)
+    simp; omega
+  refine ⟨?_, ?_, ?_⟩
+  · unfold reshapeToNDims
+    simp only [hpos]
+    have hdP' : getDimensionality (gridMatrix pS pR) (some (getSortOrder (gridMatrix pS pR))) = _ := hdP
+    have hdS' : getDimensionality (gridMatrix sS sR) (some (getSortOrder (gridMatrix sS sR))) = _ := hdS
+    have hlabP' : (getSortOrder (gridMatrix pS pR)).any (fun x => decide (x ≥ posLabs.length)) = false := hlabP
+    have hlabS' : (getSortOrder (gridMatrix sS sR)).any (fun x => decide (x ≥ specLabs.length)) = false := hlabS
+    rw [hdP', hdS']
+    simp only [bind, Except.bind, pure, Except.pure, hshape, List.getD_cons_zero, List.getD_cons_succ, hprodP, hprodS,
+      bne_self_eq_false, Bool.false_eq_true, if_false, reshapeND, hshapeprod, hlabP', hlabS', Bool.or_self, if_true]
+    rfl
+  · simp [nd, sortedND, NDArr.reshape, List.map_reverse]
+    rfl
+  · intro r c hr hc
+    show (sortedND main pS pR sS sR).get _ = _
+    unfold sortedND
+    rw [reshape_get]
+    unfold NDArr.get
+    congr 1
+    rw [hshape]
+    simp only [coords, List.map_reverse]
+    rw [ravelC_append _ _ _ _ (by simp <;> rfl)]
+    have e1 := ravel_sorted_coords pS pR hP hkP r hr
+    have e2 := ravel_sorted_coords sS sR hS hkS c hc
+    simp only [List.map_reverse] at e1 e2
+    rw [e1, e2, (List.reverse_perm _).prod_nat, hprodS]
+    simp [ravelC]
+
+/-- **The coordinate map (file order).**  For every pair of regular grids (any number of dimensions, any
+    sizes >= 1, any storage permutation `pR` / `sR` of the change rates, at most as many dimensions as points
+    on a side), every Main matrix over them and distinct labels: `reshape_to_n_dims(sort_dims=False)`
+    succeeds, returns the labels and sizes in FILE order, and the element at N-D index
+    (position indices of row r ++ spectroscopic indices of column c) is `main[r, c]` - for every r, c. -/
+theorem coordinate_map (main : NDArr α) (pS pR sS sR : List Nat) (posInds : List (List Nat))
+    (posLabs specLabs : List String)
+    (hP : ValidGrid pS pR) (hS : ValidGrid sS sR)
+    (hkP : pS.length ≤ npoints (sizeFn pS) pR) (hkS : sS.length ≤ npoints (sizeFn sS) sR)
+    (hpos : transposeM posInds = gridMatrix pS pR)
+    (hshape : main.shape = [npoints (sizeFn pS) pR, npoints (sizeFn sS) sR])
+    (hflat : main.flat.length = npoints (sizeFn pS) pR * npoints (sizeFn sS) sR)
+    (hlp : posLabs.length = pS.length) (hls : specLabs.length = sS.length) (hnd : (posLabs ++ specLabs).Nodup) :
+    ∃ nd, reshapeToNDims main posInds (gridMatrix sS sR) posLabs specLabs false = .ok (nd, posLabs ++ specLabs) ∧
+      nd.shape = pS ++ sS ∧
+      ∀ r c, r < npoints (sizeFn pS) pR → c < npoints (sizeFn sS) sR →
+        nd.get (coords pS pR r (List.range pS.length) ++ coords sS sR c (List.range sS.length)) = main.get [r, c] := by
+  obtain ⟨h0, hsh0, hget0⟩ := coordinate_map_sorted main pS pR sS sR posInds posLabs specLabs hP hS hkP hkS hpos
+    hshape hflat hlp hls
+  have hpermP0 := (order_is_rate pS pR hP hkP).1
+  have hpermS0 := (order_is_rate sS sR hS hkS).1
+  have hpermP := hpermP0.trans hP.1
+  have hpermS := hpermS0.trans hS.1
+  have hltP : ∀ d ∈ getSortOrder (gridMatrix pS pR), d < pS.length := fun d hd => List.mem_range.mp (hpermP.subset hd)
+  have hsig := sigma_perm pS.length sS.length _ _ hpermP hpermS
+  -- the sorted array's shape and the sorted labels, in terms of sigma
+  have hshσ : (sortedND main pS pR sS sR).shape =
+      (sigmaOf pS.length (getSortOrder (gridMatrix pS pR)) (getSortOrder (gridMatrix sS sR))).map
+      (fun i => (pS ++ sS).getD i 1) := by
+    rw [hsh0, sigma_map pS.length _ _ pS sS 1 rfl hltP]; rfl
+  have hlabσ : (pick posLabs (getSortOrder (gridMatrix pS pR))).reverse ++ (pick specLabs (getSortOrder (gridMatrix sS sR))).reverse =
+      (sigmaOf pS.length (getSortOrder (gridMatrix pS pR)) (getSortOrder (gridMatrix sS sR))).map
+        (fun i => (posLabs ++ specLabs).getD i default) := by
+    rw [sigma_map pS.length _ _ posLabs specLabs default hlp hltP]
+    simp [pick, List.map_reverse]
+  obtain ⟨nd2, ht, hsh2, hlab2, hget2⟩ := swap_back (sortedND main pS pR sS sR) (pS.length + sS.length) _ hsig (pS ++ sS)
+    (by simp) hshσ (posLabs ++ specLabs) (by simp [hlp, hls]) hnd
+  refine ⟨nd2, ?_, hsh2, ?_⟩
+  · have hdP := dims_along pS pR _ hP hkP hpermP
+    have hdS := dims_along sS sR _ hS hkS hpermS
+    have hprodP : ((getSortOrder (gridMatrix pS pR)).map (sizeFn pS)).prod = npoints (sizeFn pS) pR := (hpermP0.map _).prod_nat
+    have hprodS : ((getSortOrder (gridMatrix sS sR)).map (sizeFn sS)).prod = npoints (sizeFn sS) sR := (hpermS0.map _).prod_nat
+    have hshapeprod : (((getSortOrder (gridMatrix pS pR)).map (sizeFn pS)).reverse ++
+        ((getSortOrder (gridMatrix sS sR)).map (sizeFn sS)).reverse).prod = main.flat.length := by
+      rw [List.prod_append, (List.reverse_perm _).prod_nat, (List.reverse_perm _).prod_nat, hprodP, hprodS, hflat]
+    have hlabP : (getSortOrder (gridMatrix pS pR)).any (fun x => decide (x ≥ posLabs.length)) = false := by
+      rw [List.any_eq_false]; intro x hx
+      have := List.mem_range.mp (hpermP.subset hx)
+      simp; omega
+    have hlabS : (getSortOrder (gridMatrix sS sR)).any (fun x => decide (x ≥ specLabs.length)) = false := by
+      rw [List.any_eq_false]; intro x hx
+      have := List.mem_range.mp (hpermS.subset hx)
+      simp; omega
+    unfold reshapeToNDims
+    simp only [hpos]
+    rw [hdP, hdS]
+    simp only [bind, Except.bind, pure, Except.pure, hshape, List.getD_cons_zero, List.getD_cons_succ, hprodP, hprodS,
+      bne_self_eq_false, Bool.false_eq_true, if_false, reshapeND, hshapeprod, hlabP, hlabS, Bool.or_self]
+    rw [hlabσ]
+    have ht' : transposeND (main.reshape (((getSortOrder (gridMatrix pS pR)).map (sizeFn pS)).reverse ++
+        ((getSortOrder (gridMatrix sS sR)).map (sizeFn sS)).reverse)) _ = Except.ok nd2 := ht
+    rw [ht']
+    simp only [hlab2]
+  · intro r c hr hc
+    have hb : InBounds (pS ++ sS) (coords pS pR r (List.range pS.length) ++ coords sS sR c (List.range sS.length)) :=
+      inBounds_append _ _ _ _ (coords_inBounds pS pR hP r) (coords_inBounds sS sR hS c)
+    rw [hget2 _ hb, ← hget0 r c hr hc]
+    congr 1
+    have := sigma_map pS.length (getSortOrder (gridMatrix pS pR)) (getSortOrder (gridMatrix sS sR))
+      (coords pS pR r (List.range pS.length)) (coords sS sR c (List.range sS.length)) 0 (by simp [coords]) hltP
+    rw [this]
+    simp only [coords]
+    congr 1
+    · apply List.map_congr_left
+      intro d hd
+      have hdk := hltP d (List.mem_reverse.mp hd)
+      simp [List.getD_eq_getElem?_getD, List.getElem?_map, List.getElem?_range hdk]
+    · apply List.map_congr_left
+      intro d hd
+      have hdk : d < sS.length := List.mem_range.mp (hpermS.subset (List.mem_reverse.mp hd))
+      simp [List.getD_eq_getElem?_getD, List.getElem?_map, List.getElem?_range hdk]
+
+/-- **The wrapper's two views.**  A `USIDataset` opened on a regular-grid dataset (either initial flag)
+    holds: the file-order labels and sizes; ONE permutation `s2fOrder` = positions slowest to fastest, then
+    spectroscopic slowest to fastest; a file-order N-D form that is the coordinate map; and a sorted N-D
+    form whose shape is the file-order sizes picked by `s2fOrder` and whose element at the coordinates
+    rearranged by the same `s2fOrder` is again `main[r, c]`.  Together with `views_after_ops` and
+    `one_permutation` below this is the whole of C01 for the wrapper: after any number of toggles
+    interleaved with reads, labels, sizes and N-D form are one of these two consistent triples. -/
+theorem wrapper_views (main : NDArr α) (pS pR sS sR : List Nat) (posInds : List (List Nat))
+    (posLabs specLabs : List String) (flag : Bool)
+    (hP : ValidGrid pS pR) (hS : ValidGrid sS sR)
+    (hkP : pS.length ≤ npoints (sizeFn pS) pR) (hkS : sS.length ≤ npoints (sizeFn sS) sR)
+    (hpos : transposeM posInds = gridMatrix pS pR)
+    (hshape : main.shape = [npoints (sizeFn pS) pR, npoints (sizeFn sS) sR])
+    (hflat : main.flat.length = npoints (sizeFn pS) pR * npoints (sizeFn sS) sR)
+    (hlp : posLabs.length = pS.length) (hls : specLabs.length = sS.length) (hnd : (posLabs ++ specLabs).Nodup) :
+    let sigma := sigmaOf pS.length (getSortOrder (gridMatrix pS pR)) (getSortOrder (gridMatrix sS sR))
+    ∃ w ndF ndS, wrapperInit main posInds (gridMatrix sS sR) posLabs specLabs flag = .ok w ∧
+      w.sortFlag = flag ∧ w.origLabels = posLabs ++ specLabs ∧ w.origSizes = pS ++ sS ∧ w.s2fOrder = sigma ∧
+      w.orig = some ndF ∧ w.s2f = some ndS ∧
+      ndF.shape = pS ++ sS ∧ ndS.shape = pick (pS ++ sS) sigma ∧
+      ∀ r c, r < npoints (sizeFn pS) pR → c < npoints (sizeFn sS) sR →
+        let fileCoords := coords pS pR r (List.range pS.length) ++ coords sS sR c (List.range sS.length)
+        ndF.get fileCoords = main.get [r, c] ∧ ndS.get (sigma.map (fun i => fileCoords.getD i 0)) = main.get [r, c] := by
+  intro sigma
+  obtain ⟨ndF, hF, hshF, hgetF⟩ := coordinate_map main pS pR sS sR posInds posLabs specLabs hP hS hkP hkS hpos hshape hflat
+    hlp hls hnd
+  have hpermP := ((order_is_rate pS pR hP hkP).1).trans hP.1
+  have hpermS := ((order_is_rate sS sR hS hkS).1).trans hS.1
+  have hsig : sigma.Perm (List.range (pS.length + sS.length)) := sigma_perm pS.length sS.length _ _ hpermP hpermS
+  obtain ⟨_, hslen, hslt, hsmem⟩ := perm_facts _ sigma hsig
+  have hklen : ndF.shape.length = pS.length + sS.length := by rw [hshF]; simp
+  have hordlen : (getSortOrder (gridMatrix pS pR)).length = pS.length := by rw [hpermP.length_eq, List.length_range]
+  -- the sorted view
+  have htr : transposeND ndF sigma = .ok (ndF.transpose sigma (Usid.Translate.inversePerm (pS.length + sS.length) sigma)) := by
+    unfold transposeND
+    rw [hklen]
+    have c1 : (sigma.length != pS.length + sS.length) = false := by rw [hslen]; simp
+    have c2 : (List.range (pS.length + sS.length)).all (fun ax => sigma.contains ax) = true := by
+      rw [List.all_eq_true]; intro ax hax
+      simpa using hsmem ax (List.mem_range.mp hax)
+    simp only [c1, c2, Bool.not_true, Bool.or_self, Bool.false_eq_true, if_false]
+    rfl
+  refine ⟨⟨flag, posLabs ++ specLabs, pS ++ sS, sigma, some ndF,
+      some (ndF.transpose sigma (Usid.Translate.inversePerm (pS.length + sS.length) sigma))⟩, ndF,
+    ndF.transpose sigma (Usid.Translate.inversePerm (pS.length + sS.length) sigma), ?_, rfl, rfl, rfl, rfl, rfl, rfl,
+    hshF, ?_, ?_⟩
+  · unfold wrapperInit
+    simp only [hpos, C09.sizes pS pR hP hkP, C09.sizes sS sR hS hkS, bind, Except.bind, pure, Except.pure, hF, hordlen]
+    have : transposeND ndF (sigmaOf pS.length (getSortOrder (gridMatrix pS pR)) (getSortOrder (gridMatrix sS sR))) = _ := htr
+    unfold sigmaOf at this
+    simp only [this, Except.toOption]
+    rfl
+  · show sigma.map (fun ax => ndF.shape.getD ax 1) = pick (pS ++ sS) sigma
+    rw [hshF]
+    unfold pick
+    apply List.map_congr_left
+    intro i hi
+    have : i < (pS ++ sS).length := by simpa using hslt i hi
+    simp [List.getD_eq_getElem?_getD, List.getElem?_eq_getElem this]
+  · intro r c hr hc fileCoords
+    refine ⟨hgetF r c hr hc, ?_⟩
+    have hb : InBounds ndF.shape fileCoords := by
+      rw [hshF]
+      exact inBounds_append _ _ _ _ (coords_inBounds pS pR hP r) (coords_inBounds sS sR hS c)
+    have hb2 := Usid.Translate.inBounds_map ndF.shape fileCoords hb sigma (fun i hi => by rw [hklen]; exact hslt i hi)
+    rw [transpose_get ndF sigma _ _ hb2]
+    have hfl : fileCoords.length = pS.length + sS.length := by simp [fileCoords, coords]
+    have hg := Usid.Translate.gather_inverse fileCoords sigma (fun i hi => hsmem i (by rw [← hfl]; exact hi))
+    rw [hfl] at hg
+    rw [hg]
+    exact hgetF r c hr hc
 /-- Toggling twice restores the original view. -/
 theorem toggle_involutive (w : Wrapper α) : w.toggle.toggle = w := by
   cases w; simp [Wrapper.toggle]
@@ -39,5 +257,12 @@ theorem one_permutation (w : Wrapper α) :
     (w.sortFlag = true → w.labels = pick w.origLabels w.s2fOrder ∧ w.sizes = pick w.origSizes w.s2fOrder ∧
       w.view = w.s2f) := by
   constructor <;> intro h <;> simp [Wrapper.labels, Wrapper.sizes, Wrapper.view, h]
+
+
+-- non-vacuity: a 2 x 3 position grid stored with the SECOND dimension fastest, one spectroscopic dimension
+example : ValidGrid [2, 3] [1, 0] ∧ ValidGrid [2] [0] ∧ [2, 3].length ≤ npoints (sizeFn [2, 3]) [1, 0] ∧
+    gridMatrix [2, 3] [1, 0] = [[0, 0, 0, 1, 1, 1], [0, 1, 2, 0, 1, 2]] ∧
+    coords [2, 3] [1, 0] 4 (List.range 2) = [1, 1] := by
+  refine ⟨⟨by decide, by decide⟩, ⟨by decide, by decide⟩, by decide, by decide, by decide⟩
 
 end Usid.C01
